@@ -15,6 +15,10 @@ import (
 // C14 — transport failure yields a clean prefix and then an error.
 
 type c14Plan struct {
+	// Until: the consumer uses NextPackageUntil - "nil": without a callback (it may report the response consumed only
+	// if the whole response arrived), "err": with a callback that fails on the first package (the call returns, in
+	// time, however the rest of the response fares); then the failure must be reported as to any consumer.
+	Until string `json:"until,omitempty"`
 	// Bystander: another goroutine waits in a blocking receive on a second channel of the connection (nothing is
 	// sent to it): the failure of the transport must reach it as well, within the same bound.
 	Bystander bool `json:"bystander,omitempty"`
@@ -165,6 +169,9 @@ func (c14) Gen(r *Rand, idx int, tier string) interface{} {
 			if idx%9 == 4 && !strings.HasPrefix(p.Kind, "transient") && p.Kind != "eof-gap" && p.PollMs == 0 {
 				p.Bystander = true
 			}
+			if idx%17 == 9 && !strings.HasPrefix(p.Kind, "transient") && p.Kind != "eof-gap" && p.PollMs == 0 && !p.Bystander {
+				p.Until = []string{"nil", "err"}[(idx/17)%2]
+			}
 			if idx%6 == 1 && p.Kind != "eof-with-data" && p.Kind != "reset-with-data" && !strings.HasPrefix(p.Kind, "transient") && p.Kind != "eof-gap" {
 				p.FailDelayMs = []int{500, 1000, 2000, 10000}[(idx/6)%4] * p.ReadTimeoutS / 2
 			}
@@ -249,7 +256,7 @@ func (c14) Run(plan interface{}, schedSeed uint64, replay []simrt.Choice, lenien
 		return c14RunTransient(p, v, cfg, base, pk, wire, drain)
 	}
 	got := runResp(cfg, respDelivery{Packets: pk, TermAt: p.K, TermKind: term, TermWithData: withData, Async: p.Async, TermDelay: time.Duration(p.FailDelayMs) * time.Millisecond},
-		respClient{QueueSize: c14Queue(p), ReadTimeoutS: p.ReadTimeoutS, DrainFor: drain, ReadSizes: c14ReadSizes(p.ReadSize, len(wire)), MaxErrs: 10, PollEvery: time.Duration(p.PollMs) * time.Millisecond, Bystander: p.Bystander})
+		respClient{QueueSize: c14Queue(p), ReadTimeoutS: p.ReadTimeoutS, DrainFor: drain, ReadSizes: c14ReadSizes(p.ReadSize, len(wire)), MaxErrs: 10, PollEvery: time.Duration(p.PollMs) * time.Millisecond, Bystander: p.Bystander, Until: p.Until})
 	out := got.Out
 	StdOutcome(v, base.Out)
 	StdOutcome(v, out)
@@ -280,6 +287,11 @@ func (c14) Run(plan interface{}, schedSeed uint64, replay []simrt.Choice, lenien
 	}
 	if got.ConnErr != "" || got.SendErr != "" {
 		v.Violate("client-error", "client-setup-error", "%s: connect/send failed: %s %s", where, got.ConnErr, got.SendErr)
+	}
+
+	if p.Until != "" {
+		c14Until(p, v, got, where, len(wire))
+		return v, out
 	}
 
 	// What the baseline delivers: the visible entries in order, then possibly one synthetic final DONE.
@@ -630,6 +642,47 @@ func c14Gap(p *c14Plan) time.Duration {
 	return 3*rt + 700*time.Millisecond
 }
 
+// c14Until judges the consumer modes that read with NextPackageUntil: what such a call reports may not be better than
+// what arrived, and the failure of the transport is reported in time.
+func c14Until(p *c14Plan, v *Verdict, got *respResult, where string, wireLen int) {
+	v.Probe("until:" + p.Until)
+	rt := time.Duration(p.ReadTimeoutS) * time.Second
+	cost := time.Duration(p.EOFCostMs) * time.Millisecond
+	bound := got.FailedAt + rt + 2*cost
+	var firstErr *PkgRec
+	for i := range got.Recs {
+		r := &got.Recs[i]
+		switch {
+		case r.Type == "end-of-response" && p.K < wireLen && firstErr == nil:
+			v.Violate("spurious-done", "the response is reported as consumed although its end never arrived", "%s: NextPackageUntil without a callback returned as if the response had been consumed, at t=%v", where, r.Now)
+			return
+		case r.Type == "callback-call-returned":
+			if r.Dump == "" {
+				v.Violate("callback-error", "the call whose callback failed returned no error", "%s: NextPackageUntil returned nil although its callback failed", where)
+				return
+			}
+			if r.Now > bound+rt+2*cost {
+				v.Violate("late-error", "the call whose callback failed returned later than the read timeout", "%s: failure at t=%v, NextPackageUntil (callback failed on the first package) returned at t=%v: %s", where, got.FailedAt, r.Now, short(r.Dump, 200))
+				return
+			}
+		}
+		if r.Err != "" && firstErr == nil {
+			firstErr = r
+		}
+	}
+	isCtx := func(r *PkgRec) bool {
+		return strings.Contains(r.Err, "context deadline exceeded") || strings.Contains(r.Err, "context canceled")
+	}
+	switch {
+	case firstErr == nil:
+		v.Violate("no-error", "no error after transport failure", "%s (consumer mode until-%s): the consumer never received an error", where, p.Until)
+	case isCtx(firstErr):
+		v.Violate("no-error", "no error after transport failure: consumer blocked until its own deadline", "%s (consumer mode until-%s): the transport failed at t=%v but the consumer only returned when its own context expired at t=%v", where, p.Until, got.FailedAt, firstErr.Now)
+	case firstErr.Now > bound+rt+2*cost:
+		v.Violate("late-error", "error later than the read timeout", "%s (consumer mode until-%s): failure at t=%v, first error at t=%v", where, p.Until, got.FailedAt, firstErr.Now)
+	}
+}
+
 func c14Queue(p *c14Plan) int {
 	if p.QueueSize < 0 {
 		return 0
@@ -776,5 +829,5 @@ func c14RunWrite(p *c14Plan, schedSeed uint64, replay []simrt.Choice, lenient, k
 
 // RequiredProbes: a batch in which one of these never fired explored nothing of that kind (exit 2, not a pass).
 func (c14) RequiredProbes() []string {
-	return []string{"kind:eof", "kind:eof-with-data", "kind:reset", "kind:timeout", "kind:transient", "kind:transient-eof", "kind:eof-gap", "eof-gap-fired", "kind:reset-with-data", "kind:write"}
+	return []string{"kind:eof", "kind:eof-with-data", "kind:reset", "kind:timeout", "kind:transient", "kind:transient-eof", "kind:eof-gap", "eof-gap-fired", "kind:reset-with-data", "until:nil", "until:err", "kind:write"}
 }
